@@ -146,6 +146,12 @@ func (rl *Shell) init() {
 	rl.Hint.Reset()
 	rl.completer.ResetForce()
 	display.Init(rl.Display, rl.SyntaxHighlighter)
+
+	// The buffer might not be empty (line held or inferred from history):
+	// in Vi command mode the cursor must be on a character before we wait.
+	if rl.Keymap.Main() == keymap.ViCommand {
+		rl.cursor.CheckCommand()
+	}
 }
 
 // run wraps the execution of a target command/sequence with various pre/post actions
